@@ -211,14 +211,10 @@ pub fn binary_lit(sel: &[QR], op: BinOp, neg: bool, lit: &V, some: bool) -> St {
                 V::List(ll) => match v {
                     V::List(vl) => {
                         if !ll.is_empty() && matches!(ll[0], V::List(_)) {
-                            let r = member(v, ll);
-                            if !neg {
-                                res.push(b3(r));
-                            } else if !r {
-                                res.push(b3(vl.is_empty()));
-                            } else {
-                                res.push(B3::F);
-                            }
+                            // against a list of lists the value is compared as a whole: `not in` holds exactly when `in`
+                            // does not (the tool used to FAIL both for a non-empty list; repaired in /repo aa22c4d)
+                            let _ = vl;
+                            res.push(b3(member(v, ll) != neg));
                         } else {
                             let sub = vl.iter().all(|e| member(e, ll));
                             if !neg {
